@@ -1,5 +1,6 @@
 import QcoVerif.Properties.C06
 import QcoVerif.Lemmas.BuilderSrc
+import QcoVerif.Lemmas.FacadeSrc
 /-
   C06 — tie to the SOURCE TEXT (DESIGN.md §2.3b).  Kept in a file of its own that nothing imports: a change of the translated
   source functions breaks THESE obligations only, not the build of the property files that import Properties/C06.lean.
@@ -39,5 +40,24 @@ theorem apply_modifiers_matches_source (count : Int) (nodes : List Nat) :
 
 end BuilderSourceTie
 
+
+
+/-! ### the facade `DeclarativeCircuit` as written (Lemmas/FacadeSrc.lean; DESIGN.md §2.3b) -/
+
+section Facade
+open Qco.Py Qco.Gen.PySrc Qco.BuilderSrc Qco.FacadeSrc
+
+/-- **`apply_modifiers`**: the structure is modified IN PLACE (`apply_modifiers_to_self` is called on it and answers with the same
+    object), and a fresh wrapper receives that structure, the SAME list of added operations and the SAME acquisition registry. -/
+theorem facade_apply_modifiers_matches_source :
+    let st := stObj 2 [("apply_modifiers_to_self()", stObj 2 [])]
+    let fresh := Val.tuple [.str "DeclarativeCircuit", .tuple [.str "nr_qubits", .int 0]]
+    callEffects builderEnv Decl_apply_modifiers [declObj 1 st addedObj regObj] =
+      [Val.tuple [.str "setattr", fresh, .str "_structure", stObj 2 []],
+       Val.tuple [.str "setattr", fresh, .str "_added_operations", addedObj],
+       Val.tuple [.str "setattr", fresh, .str "_acquisition_registry", regObj]] :=
+  FacadeSrc.apply_modifiers_matches_source 
+
+end Facade
 
 end Qco.C06
